@@ -62,6 +62,12 @@ func (*Typechecker).findOverload
   modifies *
   ensures t.Module.Ast.Faulty == old(t.Module.Ast.Faulty) && t.latestReturnedType == old(t.latestReturnedType)
 
+// C09: overload candidates are matched one after the other, each against a fresh (cleared) set of type-parameter
+// bindings - a binding left over from a candidate that did not match must not decide the next one
+func (*Typechecker).findOverload#2 [C09]
+  requires t != nil
+  loop 0 each clear when true
+
 // --- C04 "operand of a wrong type" / C02 checker side, unary operators ---
 func (*Typechecker).VisitUnaryExpr [C04, C02]
   cases expr.Operator in {ast.UN_ABS, ast.UN_NEGATE, ast.UN_NOT, ast.UN_LOGIC_NOT}
